@@ -4,7 +4,7 @@ Deliberately dumb: attribute reads and constructor calls only."""
 from __future__ import annotations
 
 from .core import outcome, octs, after_pack
-from .probe import decode_other, poison
+from .probe import decode_other, poison, twin
 
 
 def _hdr_proj(h):
@@ -203,6 +203,13 @@ def op_tc_rt(a):
 
     def run():
         poison("tc")
+
+        def _mut(t):
+            t.pack()
+            t.apid, t.seq_count, t.source_id = (t.apid + 1) % 2048, (t.seq_count + 1) % 16384, (t.source_id + 1) % 65536
+            t.app_data = bytes(t.app_data) + b"\x77"
+            t.pus_tc_sec_header.service = (t.service + 1) % 256
+        twin(lambda: mk_tc(a["p"], a.get("via", "ctor")), _mut)
         tc = mk_tc(a["p"], a.get("via", "ctor"))
         sp = tc.to_space_packet().pack()          # before pack(): must not depend on what an earlier pack() left behind
         raw = tc.pack()
@@ -250,6 +257,15 @@ def op_tm_rt(a):
     def run():
         via = a.get("via", "tm")
         poison("tm")
+
+        def _mut(t):
+            t = _inner_tm(t)
+            t.pack()
+            t.apid = (t.apid + 1) % 2048
+            t.tm_data = bytes(t.tm_data) + b"\x77"
+            t.pus_tm_sec_header.dest_id = (t.pus_tm_sec_header.dest_id + 1) % 65536
+            t.pus_tm_sec_header.message_counter = (t.pus_tm_sec_header.message_counter + 1) % 65536
+        twin(lambda: mk_tm(a["p"], via), _mut)
         tm = mk_tm(a["p"], via)
         sp = _inner_tm(tm).to_space_packet().pack()
         raw = tm.pack()
